@@ -82,8 +82,72 @@ def variant_swap_if(d):
         open(f, "w", encoding="utf-8").write(out + "\n")
 
 
+class _RenameLocals(ast.NodeTransformer):
+    """every local variable of a simple function (no nested defs / lambdas / global statements / local imports) gets a new name"""
+
+    def visit_FunctionDef(self, node):
+        inner = [n for n in ast.walk(node) if n is not node and isinstance(n, (ast.FunctionDef, ast.Lambda, ast.ClassDef, ast.Global,
+                                                                               ast.Nonlocal, ast.Import, ast.ImportFrom))]
+        if inner:
+            self.generic_visit(node)
+            return node
+        a = node.args
+        params = {x.arg for x in a.posonlyargs + a.args + a.kwonlyargs}
+        if a.vararg:
+            params.add(a.vararg.arg)
+        if a.kwarg:
+            params.add(a.kwarg.arg)
+        local = set()
+        for n in ast.walk(node):
+            if isinstance(n, ast.Name) and isinstance(n.ctx, ast.Store):
+                local.add(n.id)
+            elif isinstance(n, ast.ExceptHandler) and n.name:
+                local.add(n.name)
+        local -= params
+        for n in ast.walk(node):
+            if isinstance(n, ast.Name) and n.id in local:
+                n.id = n.id + "_v"
+            elif isinstance(n, ast.ExceptHandler) and n.name in local:
+                n.name = n.name + "_v"
+        return node
+
+
+class _Messages(ast.NodeTransformer):
+    """the text of every exception message changes"""
+
+    def visit_Raise(self, node):
+        if isinstance(node.exc, ast.Call):
+            for a_ in node.exc.args[:1]:
+                for c in ast.walk(a_):
+                    if isinstance(c, ast.Constant) and isinstance(c.value, str) and c.value:
+                        c.value = c.value + " (reworded)"
+        return node
+
+
+def _transform_all(d, tr):
+    for f in glob.glob(os.path.join(d, "nixio", "**", "*.py"), recursive=True):
+        src = open(f, encoding="utf-8").read()
+        try:
+            tree = tr().visit(ast.parse(src))
+            ast.fix_missing_locations(tree)
+            out = ast.unparse(tree)
+            compile(out, f, "exec")
+        except Exception:
+            continue
+        open(f, "w", encoding="utf-8").write(out + "\n")
+
+
+def variant_rename_locals(d):
+    _transform_all(d, _RenameLocals)
+
+
+def variant_messages(d):
+    _transform_all(d, _Messages)
+
+
 BENIGN = [("re-emitted from the AST", variant_unparse), ("line numbers shifted", variant_shift),
-          ("if/else branches exchanged under negation", variant_swap_if)]
+          ("if/else branches exchanged under negation", variant_swap_if),
+          ("local variables renamed", variant_rename_locals), ("exception messages reworded", variant_messages)]
 
 
 def one_seed(prop, sd):
